@@ -111,6 +111,9 @@ func RunAction(kind string, r interface{}, act string) {
 		panic("boom")
 	case "panic42":
 		panic(42)
+	case "panicNilErr":
+		var e *res.Error // a typed nil: "any value"
+		panic(e)
 	case "setmeta":
 		r.(interface{ SetResponseStatus(int) }).SetResponseStatus(303)
 	case "resource":
